@@ -35,6 +35,13 @@ func c06Build(in *c06In, now time.Time) (c06Req, error) {
 	var p *c06Params
 	if pl := in.Plan; pl != nil {
 		t := now.Add(-time.Duration(pl.AgeS) * time.Second).UTC().Truncate(time.Second)
+		if pl.Clock != "" {
+			c, err := time.Parse("15:04:05", pl.Clock)
+			if err != nil {
+				return r, fmt.Errorf("bad clock %q", pl.Clock)
+			}
+			t = now.UTC().Truncate(24*time.Hour).AddDate(0, 0, pl.DayOff).Add(time.Duration(c.Hour())*time.Hour + time.Duration(c.Minute())*time.Minute + time.Duration(c.Second())*time.Second)
+		}
 		p = &c06Params{Presign: pl.Mode == "query", KeyID: pl.KeyID, Scopes: pl.Scopes, Signed: strings.Join(pl.Signed, ";"),
 			FTime: t.Format(c06TimeFormat), FDate: t.Format("20060102"), ExpireNs: pl.Expires * 1e9}
 		cred := pl.KeyID + "/" + p.scope(l)
